@@ -112,6 +112,14 @@ M5 = {
  "C19": ("_dispatch_group_wait_slow treats every non-zero futex return as the time-out", "a finite dispatch_block_wait (or group wait) interrupted by a signal", "c12_waits under signals, now also run by C19 / C07 (added): non-zero before the deadline", True),
  "C20": ("surrogate-pair branch of the UTF-8 to UTF-16 transform asks the buffer helper for 2 bytes plus 2 instead of 4", "a region ending with the first byte of a 4-byte sequence after ASCII only", "fragmented differential on the sanitizer build: heap overflow", False),
 }
+M10 = {
+ "C06": ("_dispatch_lane_suspend_slow counts the caller's own suspension only on the first spill into the side count", "96 or more outstanding suspensions (second spill of the inline count)", "c06_suspend deep counts / SuspendP replay: runs one resume early", False),
+ "C11": ("_dispatch_interval_config_create rounds the first fire of an interval source to the closest interval boundary instead of the next", "a DISPATCH_SOURCE_TYPE_INTERVAL source created in the first half of its period", "c11_interval (added) with C11.interval_source_first_fire: fired before its first boundary", True),
+ "C13": ("_dispatch_data_copy_region stops its record walk with > instead of >= at offset + length", "dispatch_data_copy_region at the first byte of a record other than the first, on a composite", "L-fn region differential: region does not contain the location", False),
+ "C15": ("_dispatch_source_install stores 0 into ds_pending_data before registering", "values merged into a data source before it is activated", "c15_regsusp: values merged before the registration handler were not delivered", False),
+ "C16": ("_dispatch_source_wakeup no longer counts the cancel handler among the reasons to send a cancelled, unregistered source to its target queue", "a source with a cancellation handler and no event handler, cancelled before activation or after a peer hang-up", "c16_cancel cancel_only_unreg (added): cancellation handler never ran", True),
+ "C20": ("single-record shortcut of dispatch_data_create_subrange drops the record's own starting offset", "a transform input with a region that is a sub-range (non-zero start) of a larger buffer", "X2 differential and round trip: every other region is now a sub-range of a larger leaf (added)", True),
+}
 M9 = {
  "C02": ("_dispatch_lane_resume decides to run the lock hand-off by 'drain lock owned by self' instead of the IN_BARRIER transition", "a running item of a serial queue suspends and resumes its own queue while other work is queued or parked", "c02_selfresume (added)", True),
  "C04": ("_dispatch_sync_block_with_privdata builds dc_flags from the block object's flags only, dropping the caller's DC_FLAG_BARRIER", "dispatch_barrier_sync with a dispatch_block_create object that has no DISPATCH_BLOCK_BARRIER flag, on a concurrent queue", "c04_width syncer: flag-less block objects through dispatch_barrier_sync (added)", True),
@@ -277,9 +285,20 @@ for k, (what, needs, caught, strengthened) in sorted(M9.items()):
                "check_run": "scripts/try_seed.sh %s seeded9/%s" % (k, k),
                "caught_by": caught, "tier": "quick", "missed_at_first_and_check_strengthened": strengthened},
               open(os.path.join(d, "meta.json"), "w"), indent=1)
+root10 = os.path.join(os.path.dirname(root), "seeded10")
+for k, (what, needs, caught, strengthened) in sorted(M10.items()):
+    d = os.path.join(root10, k)
+    if not os.path.isdir(d): continue
+    lines = open(os.path.join(d, "confirm.log")).read().strip().splitlines() if os.path.exists(os.path.join(d, "confirm.log")) else []
+    json.dump({"property": k, "round": 10, "change": what, "needs_to_manifest": needs,
+               "produced_by": "sub-agent given the property text, its own scratch worktree, and one-line descriptions of the eight earlier seeds to avoid; asked for side observations on the unchanged code with reproducers (side_*.c), each also run with poisoned frees",
+               "confirmed": {"how": "scripts/confirm_seed.sh %s /verif/seeded10/%s" % (k, k), "result": " | ".join(lines[-2:]) or "not confirmed"},
+               "check_run": "scripts/try_seed.sh %s seeded10/%s" % (k, k),
+               "caught_by": caught, "tier": "quick", "missed_at_first_and_check_strengthened": strengthened},
+              open(os.path.join(d, "meta.json"), "w"), indent=1)
 import glob
 for mf in glob.glob(os.path.join(os.path.dirname(root), "seeded*", "C*", "meta.json")):
     if os.path.exists(os.path.join(os.path.dirname(mf), "patch.as-delivered.diff")):
         m = json.load(open(mf)); m["rebased"] = "patch.diff was rebased onto later fix: commits that changed its context lines; the change itself is the same. As delivered: patch.as-delivered.diff"
         json.dump(m, open(mf, "w"), indent=1)
-print("meta.json written for", len(M), "+", len(M2), "+", len(M3), "+", len(M4), "+", len(M5), "+", len(M6), "+", len(M7), "+", len(M8), "+", len(M9), "seeds")
+print("meta.json written for", len(M), "+", len(M2), "+", len(M3), "+", len(M4), "+", len(M5), "+", len(M6), "+", len(M7), "+", len(M8), "+", len(M9), "+", len(M10), "seeds")
